@@ -157,6 +157,9 @@ def rand_formula(rng, names, depth, pconst=0.06):
         if r < pconst: return ('top',) if rng.random() < 0.5 else ('bot',)
         return ('atom', rng.choice(names))
     if rng.random() < 0.2: return ('neg', rand_formula(rng, names, depth - 1, pconst))
+    if rng.random() < 0.04:
+        f = rand_formula(rng, names, depth - 1, pconst)       # a connective applied to two equal operands
+        return (rng.choice(BINOPS), f, f)
     return (rng.choice(BINOPS), rand_formula(rng, names, depth - 1, pconst), rand_formula(rng, names, depth - 1, pconst))
 
 
